@@ -1,4 +1,5 @@
 import Proofs.FD
+import Proofs.LivenessFD
 import PikoModel.Generated.Facts
 /-!
 # C12 — Failure detector: steady peers are never suspected, silent peers always are
@@ -236,5 +237,320 @@ example : (newArrivalWindow 10 3).phi 5 = .error Err.phiBeforeSample := by decid
 
 /-- first query of an unknown node inserts a bootstrap window and returns zero -/
 example : ((newDetector 10 3).suspicionLevelAt "n" 7).2 = .ok { num := 0, den := 10 } := by decide
+
+/-! ## Composition with the membership state machine: `UpdateLiveness` driven by the detector
+
+`Proofs/LivenessFD.lean`: `suspectedBy d θ now id` is the comparison `UpdateLiveness` evaluates
+(`failureDetector.SuspicionLevel(id) > threshold` at `time.Now() = now`, as the exact fraction
+`num > θ·den`; for a node without a window it is the level of the bootstrap window the query
+inserts, i.e. zero) and `livenessTick d θ now s = updateLiveness s (suspectedBy d θ now) now`.
+`suspectedBy` is the **pure** counterpart of the stateful Go query; `C12_tick_is_literal_loop`
+proves that the loop which threads the detector through the queries gives the same state and
+notifications.  "The detector has heard from `p`" is `d.windows.find p = some (windowOf b N ts)`
+with `ts ≠ []`: exactly what `C12_detector` gives for `d = (newDetector b N).run ops` and
+`ts = arrivalsOf p ops` (`C12_heard_of_history`). -/
+section Liveness
+open Piko.Gossip Piko.LivenessFD
+
+/-- the hypothesis "`d` holds for `p` the window of the arrivals `ts`" of the theorems below is
+what every history of `ReportWithTimestamp`/`SuspicionLevelAt`/`Remove` establishes -/
+theorem C12_heard_of_history (b : Int) (N : Nat) (hN : 0 < N) (ops : List FD.Op) (p : String)
+    (hne : arrivalsOf p ops ≠ []) :
+    ((newDetector b N).run ops).windows.find p = some (windowOf b N (arrivalsOf p ops)) := by
+  rw [C12_detector b N hN ops p, if_neg hne]
+
+/-- The verdict `UpdateLiveness` sees is the exact comparison of `C12_linear`: a node whose window
+is the one of the arrivals `ts` is suspected at `now` iff `θ · sum < (now − last) · size`. -/
+theorem C12_suspected_iff (d : Detector) (p : String) (b : Int) (N : Nat) (ts : List Nat) (hN : 0 < N)
+    (hb : 0 < b) (hinc : ts.Pairwise (· < ·)) (hne : ts ≠ [])
+    (hwin : d.windows.find p = some (windowOf b N ts)) (θ now : Nat) :
+    suspectedBy d θ now p = true ↔
+      (θ : Int) * (lastN N (intervalsOf b ts)).sum <
+        ((now : Int) - (ts.getLast hne : Nat)) * ((min ts.length N : Nat) : Int) :=
+  suspectedBy_iff hN hb hinc hne hwin θ now
+
+/-- **A peer that falls silent is marked unreachable.**  State `s` well-formed, `p` remembered,
+remote and not left; the detector has heard from `p` (arrivals `ts`, strictly increasing, at least
+one).  At every tick from `last + T` on - `T = ⌊θ·sum/size⌋ + 1`, the silence of
+`C12_completeness` - the verdict is "suspected" and after `UpdateLiveness`:
+`p` is flagged unreachable; if it was not flagged before, its expiry is `now + nodeExpiry` and
+`OnUnreachable(p)` is notified (if it was, the node - expiry of the first flagging included - is
+untouched and nothing is notified); no `OnReachable(p)`; `p` is not among `LiveNodes()` and is
+among `UnreachableNodes()`, hence remains a target of the second draw of every gossip round
+(`C03_round_probes_unreachable`); and the flags of every other node are those a detector gives that
+agrees with `d` everywhere except on `p`'s window (per-node isolation). -/
+theorem C12_silent_peer_marked_unreachable
+    (s : CState) (hwf : C11.WF s) (p : String) (n : NodeSt)
+    (hf : s.nodes.find p = some n) (hid : p ≠ s.localId) (hl : n.left = false)
+    (d : Detector) (b : Int) (N : Nat) (ts : List Nat) (hN : 0 < N) (hb : 0 < b)
+    (hinc : ts.Pairwise (· < ·)) (hne : ts ≠ [])
+    (hwin : d.windows.find p = some (windowOf b N ts)) (θ T : Nat)
+    (hT : (T : Int) = (θ : Int) * (lastN N (intervalsOf b ts)).sum / ((min ts.length N : Nat) : Int) + 1)
+    (now : Nat) (hnow : ts.getLast hne + T ≤ now) :
+    suspectedBy d θ now p = true ∧
+    ∃ n', (livenessTick d θ now s).1.nodes.find p = some n' ∧
+      n'.unreachable = true ∧ n'.left = false ∧ n'.id = p ∧ n'.entries = n.entries ∧
+      (n.unreachable = false → n'.expiry = some (now + nodeExpiry)) ∧
+      (n.unreachable = true → n' = n) ∧
+      (Event.unreachable p ∈ (livenessTick d θ now s).2 ↔ n.unreachable = false) ∧
+      Event.reachable p ∉ (livenessTick d θ now s).2 ∧
+      (∀ m ∈ liveNodes (livenessTick d θ now s).1, m.id ≠ p) ∧
+      n' ∈ unreachableNodes (livenessTick d θ now s).1 ∧
+      (∃ j, j < (unreachableNodes (livenessTick d θ now s).1).length ∧
+        ∀ r₁ r₂, r₂ % (unreachableNodes (livenessTick d θ now s).1).length = j →
+          n' ∈ roundTargets (livenessTick d θ now s).1 r₁ r₂) ∧
+      (∀ d' : Detector, (∀ q, q ≠ p → d'.windows.find q = d.windows.find q) →
+        d'.bootstrapInterval = d.bootstrapInterval → d'.sampleSize = d.sampleSize →
+        ∀ q, q ≠ p →
+          (livenessTick d' θ now s).1.nodes.find q = (livenessTick d θ now s).1.nodes.find q) := by
+  have hs : suspectedBy d θ now p = true :=
+    suspected_of_silent hN hb hinc hne hwin θ T hT now hnow
+  obtain ⟨n', h1, h2, h3, h4, h5, h6, h7, h8, h9, h10, h11⟩ :=
+    tick_flags hwf (suspectedBy d θ now) now hf hid hl hs
+  refine ⟨hs, n', h1, h5, h3, h2, h4, h6, h7, h8, h9, h10, h11, probed_of_unreachable _ _ h11, ?_⟩
+  intro d' hd' hb' hs' q hq
+  exact tick_isolated hwf _ _ now q (suspectedBy_congr (hd' q hq) hb' hs' θ now)
+
+/-- … at the extracted production threshold: silence `T = ⌊20·sum/size⌋ + 1`, i.e. just over twenty
+mean inter-arrival times. -/
+theorem C12_silent_peer_marked_unreachable_threshold
+    (s : CState) (hwf : C11.WF s) (p : String) (n : NodeSt)
+    (hf : s.nodes.find p = some n) (hid : p ≠ s.localId) (hl : n.left = false) (hu : n.unreachable = false)
+    (d : Detector) (b : Int) (N : Nat) (ts : List Nat) (hN : 0 < N) (hb : 0 < b)
+    (hinc : ts.Pairwise (· < ·)) (hne : ts ≠ [])
+    (hwin : d.windows.find p = some (windowOf b N ts)) (T : Nat)
+    (hT : (T : Int) = 20 * (lastN N (intervalsOf b ts)).sum / ((min ts.length N : Nat) : Int) + 1)
+    (now : Nat) (hnow : ts.getLast hne + T ≤ now) :
+    ∃ n', (livenessTick d (Facts.suspicionThreshold.getD 0) now s).1.nodes.find p = some n' ∧
+      n'.unreachable = true ∧ n'.expiry = some (now + nodeExpiry) ∧
+      Event.unreachable p ∈ (livenessTick d (Facts.suspicionThreshold.getD 0) now s).2 ∧
+      (∀ m ∈ liveNodes (livenessTick d (Facts.suspicionThreshold.getD 0) now s).1, m.id ≠ p) ∧
+      n' ∈ unreachableNodes (livenessTick d (Facts.suspicionThreshold.getD 0) now s).1 := by
+  obtain ⟨_, n', h1, h2, _, _, _, h6, _, h8, _, h10, h11, _⟩ :=
+    C12_silent_peer_marked_unreachable s hwf p n hf hid hl d b N ts hN hb hinc hne hwin
+      (Facts.suspicionThreshold.getD 0) T
+      (by rw [show Facts.suspicionThreshold.getD 0 = 20 from rfl]; exact_mod_cast hT) now hnow
+  exact ⟨n', h1, h2, h6 hu, h8.mpr hu, h10, h11⟩
+
+/-- the premise of the isolation clause holds for whatever the detector hears **about `p`**
+meanwhile: reports, first queries and removals naming `p` leave every other node's window (and
+the constructor parameters) alone - `C12_detector`, from an arbitrary detector -/
+theorem C12_peer_ops_isolated (d : Detector) (p : String) (ops : List FD.Op)
+    (hops : ∀ op ∈ ops, opId op = p) :
+    (∀ q, q ≠ p → (d.run ops).windows.find q = d.windows.find q) ∧
+    (d.run ops).bootstrapInterval = d.bootstrapInterval ∧ (d.run ops).sampleSize = d.sampleSize := by
+  refine ⟨fun q hq => (run_find_other ops q (fun op ho => by rw [hops op ho]; exact hq) d).1, ?_, ?_⟩
+  · exact (run_params ops d).1
+  · exact (run_params ops d).2
+
+/-- **A peer heard at steady intervals stays live.**  If every sample in `p`'s window (the bootstrap
+interval while it is there, and every inter-arrival time) is at least `lo > 0` and the tick comes
+no later than `θ·lo` after the last arrival, the verdict is "not suspected" and after
+`UpdateLiveness`: `p` is not flagged; if it was not flagged before it is untouched and nothing is
+notified; **if it was flagged** the flag and the expiry are cleared and `OnReachable(p)` is
+notified; `p` is among `LiveNodes()` and not among `UnreachableNodes()`.
+(The lower bound is what matters: an upper bound on the inter-arrival times alone does not keep the
+level down - a burst of short intervals makes the mean small.  For a peer heard exactly every `I`:
+`lo = I`, not flagged while the silence is `≤ θ·I`.) -/
+theorem C12_steady_peer_stays_live
+    (s : CState) (hwf : C11.WF s) (p : String) (n : NodeSt)
+    (hf : s.nodes.find p = some n) (hid : p ≠ s.localId) (hl : n.left = false)
+    (d : Detector) (b : Int) (N : Nat) (ts : List Nat) (hN : 0 < N) (hne : ts ≠ [])
+    (hwin : d.windows.find p = some (windowOf b N ts))
+    (lo : Int) (θ : Nat) (hlo : 0 < lo) (hsamples : ∀ x ∈ lastN N (intervalsOf b ts), lo ≤ x)
+    (now : Nat) (hnow : (now : Int) ≤ (ts.getLast hne : Nat) + (θ : Int) * lo) :
+    suspectedBy d θ now p = false ∧
+    ∃ n', (livenessTick d θ now s).1.nodes.find p = some n' ∧
+      n'.unreachable = false ∧ n'.left = false ∧ n'.id = p ∧ n'.entries = n.entries ∧
+      (n.unreachable = false → n' = n) ∧
+      (n.unreachable = true → n'.expiry = none) ∧
+      (Event.reachable p ∈ (livenessTick d θ now s).2 ↔ n.unreachable = true) ∧
+      Event.unreachable p ∉ (livenessTick d θ now s).2 ∧
+      n' ∈ liveNodes (livenessTick d θ now s).1 ∧
+      (∀ m ∈ unreachableNodes (livenessTick d θ now s).1, m.id ≠ p) := by
+  have hs : suspectedBy d θ now p = false :=
+    not_suspected_of_steady hN hne hwin lo θ hlo hsamples now hnow
+  obtain ⟨n', h1, h2, h3, h4, h5, h6, h7, h8, h9, h10, h11⟩ :=
+    tick_clears hwf (suspectedBy d θ now) now hf hid hl hs
+  exact ⟨hs, n', h1, h5, h3, h2, h4, h7, h6, h8, h9, h10, h11⟩
+
+/-- … at the extracted production threshold (`C12_accuracy_threshold`): not flagged while the
+silence is at most twenty times the smallest sample in the window. -/
+theorem C12_steady_peer_stays_live_threshold
+    (s : CState) (hwf : C11.WF s) (p : String) (n : NodeSt)
+    (hf : s.nodes.find p = some n) (hid : p ≠ s.localId) (hl : n.left = false) (hu : n.unreachable = false)
+    (d : Detector) (b : Int) (N : Nat) (ts : List Nat) (hN : 0 < N) (hne : ts ≠ [])
+    (hwin : d.windows.find p = some (windowOf b N ts))
+    (lo : Int) (hlo : 0 < lo) (hsamples : ∀ x ∈ lastN N (intervalsOf b ts), lo ≤ x)
+    (now : Nat) (hnow : (now : Int) ≤ (ts.getLast hne : Nat) + 20 * lo) :
+    (livenessTick d (Facts.suspicionThreshold.getD 0) now s).1.nodes.find p = some n ∧
+    Event.unreachable p ∉ (livenessTick d (Facts.suspicionThreshold.getD 0) now s).2 ∧
+    n ∈ liveNodes (livenessTick d (Facts.suspicionThreshold.getD 0) now s).1 := by
+  obtain ⟨_, n', h1, _, _, _, _, h6, _, _, h9, h10, _⟩ :=
+    C12_steady_peer_stays_live s hwf p n hf hid hl d b N ts hN hne hwin lo
+      (Facts.suspicionThreshold.getD 0) hlo hsamples now
+      (by rw [show Facts.suspicionThreshold.getD 0 = 20 from rfl]; exact_mod_cast hnow)
+  have := h6 hu
+  subst this
+  exact ⟨h1, h9, h10⟩
+
+/-- **Restored when heard from again.**  `p` is flagged unreachable; a message from it arrives at
+`t` (`Report(p)` in `packetListener`: the detector records the arrival; `t` later than the last
+arrival); `UpdateLiveness` runs at `now`, `t ≤ now ≤ t + θ·lo`, where `lo > 0` bounds the samples
+of the new window from below (the newest sample is the whole silence `t − last`, so it is no
+obstacle).  Then the tick clears the flag and the expiry, notifies `OnReachable(p)`, and `p` is
+among `LiveNodes()` again.  Meanwhile it was still probed: `C12_silent_peer_marked_unreachable`. -/
+theorem C12_heard_again_restored
+    (s : CState) (hwf : C11.WF s) (p : String) (n : NodeSt)
+    (hf : s.nodes.find p = some n) (hid : p ≠ s.localId) (hl : n.left = false) (hu : n.unreachable = true)
+    (d : Detector) (b : Int) (N : Nat) (ts : List Nat) (hN : 0 < N)
+    (hwin : d.windows.find p = some (windowOf b N ts)) (t : Nat)
+    (lo : Int) (θ : Nat) (hlo : 0 < lo) (hsamples : ∀ x ∈ lastN N (intervalsOf b (ts ++ [t])), lo ≤ x)
+    (now : Nat) (hnow : (now : Int) ≤ (t : Int) + (θ : Int) * lo) :
+    ∃ n', (livenessTick (d.reportWithTimestamp p t).1 θ now s).1.nodes.find p = some n' ∧
+      n'.unreachable = false ∧ n'.expiry = none ∧ n'.left = false ∧ n'.entries = n.entries ∧
+      Event.reachable p ∈ (livenessTick (d.reportWithTimestamp p t).1 θ now s).2 ∧
+      n' ∈ liveNodes (livenessTick (d.reportWithTimestamp p t).1 θ now s).1 := by
+  have hwin' := (report_window hwin t).1
+  obtain ⟨_, n', h1, h2, h3, _, h5, _, h7, h8, _, h10, _⟩ :=
+    C12_steady_peer_stays_live s hwf p n hf hid hl (d.reportWithTimestamp p t).1 b N (ts ++ [t]) hN
+      (by simp) hwin' lo θ hlo hsamples now (by simpa using hnow)
+  exact ⟨n', h1, h2, h7 hu, h3, h5, h8.mpr hu, h10⟩
+
+/-- **The pure tick is the literal loop.**  Go's `SuspicionLevel` is not pure (a first query stores
+a bootstrap window).  Threading the detector through the queries of one `UpdateLiveness`
+(`livenessTickD`) yields, for every well-formed state, exactly the state and notifications of
+`livenessTick` - whose verdicts are all computed on the detector as it was before the tick - and
+leaves the detector `d` after the tick's queries (`tickOps`: one `SuspicionLevelAt(id, now)` per
+remembered node that is neither local nor left, in map order). -/
+theorem C12_tick_is_literal_loop (d : Detector) (θ now : Nat) (s : CState) (hwf : C11.WF s) :
+    livenessTickD d θ now s = (d.run (tickOps s.localId now s.nodes), livenessTick d θ now s) :=
+  livenessTickD_eq d θ now hwf
+
+/-- **A peer never heard from** (learnt from a digest, no message yet).  The first tick (at `t0`)
+does not flag it - the query returns the level of a fresh bootstrap window, zero - and the literal
+loop stores that window (arrival `t0`, one sample: the bootstrap interval).  Any later tick on a
+detector still holding that window flags it once the silence exceeds `θ` bootstrap intervals
+(then `C12_silent_peer_marked_unreachable` with `ts = [t0]` applies).  Production: the bootstrap
+interval is `2 × Interval`, so a peer that never answers is flagged after `40 × Interval`. -/
+theorem C12_never_heard_peer (s : CState) (hwf : C11.WF s) (p : String) (n : NodeSt)
+    (hf : s.nodes.find p = some n) (hid : p ≠ s.localId) (hl : n.left = false)
+    (d : Detector) (hnone : d.windows.find p = none) (hN : 0 < d.sampleSize)
+    (hb : 0 < d.bootstrapInterval) (θ t0 : Nat) :
+    suspectedBy d θ t0 p = false ∧
+    (livenessTickD d θ t0 s).2 = livenessTick d θ t0 s ∧
+    (livenessTickD d θ t0 s).1.windows.find p =
+      some (windowOf d.bootstrapInterval d.sampleSize [t0]) ∧
+    ∀ d₁ : Detector, d₁.windows.find p = some (windowOf d.bootstrapInterval d.sampleSize [t0]) →
+      ∀ now : Nat, (suspectedBy d₁ θ now p = true ↔
+        (t0 : Int) + (θ : Int) * d.bootstrapInterval < (now : Int)) := by
+  refine ⟨suspectedBy_unknown hnone hN hb θ t0, ?_, ?_, ?_⟩
+  · rw [livenessTickD_eq d θ t0 hwf]
+  · rw [livenessTickD_eq d θ t0 hwf]
+    exact tickDetector_unknown hwf hf hid hl hnone hN t0
+  · intro d₁ hw now
+    rw [suspectedBy_iff hN hb (by simp) (by simp) hw θ now]
+    have h1 : lastN d.sampleSize (intervalsOf d.bootstrapInterval [t0]) = [d.bootstrapInterval] := by
+      simp only [intervalsOf, diffs, lastN, List.length_singleton]
+      rw [show 1 - d.sampleSize = 0 by omega]; rfl
+    have h2 : min [t0].length d.sampleSize = 1 := by simp; omega
+    rw [h1, h2]
+    simp only [List.sum_cons, List.sum_nil, add_zero, List.getLast_singleton, Nat.cast_one, mul_one]
+    constructor <;> intro h <;> linarith
+
+/-! ### non-vacuity with the production constants
+
+Window 50 (`Facts.fdSampleSize`), gossip interval 100 ms, bootstrap `2 × interval` = 200 ms
+(`Facts.fdBootstrapMultiplier`), threshold `Facts.suspicionThreshold` = 20; times in ns.  Peer `p`
+is heard every 100 ms, sixty times (the window has wrapped, the bootstrap sample is gone: fifty
+samples of 100 ms), last at 6 s, then silent; peer `q` was learnt from a digest and never heard. -/
+
+def c12Arrivals : List Nat := (List.range 60).map (fun k => (k + 1) * 100000000)
+
+def c12Det : Detector :=
+  (newDetector (100000000 * 2) 50).run (c12Arrivals.map (fun t => FD.Op.report "p" t))
+
+def c12State : CState :=
+  (applyDigest (init "n" "a") [⟨"p", "ap", 0, false⟩, ⟨"q", "aq", 0, false⟩]).1
+
+/-- the hypotheses of `C12_silent_peer_marked_unreachable` hold of this data, with `T = 2 s + 1 ns` -/
+example : C11.WF c12State := C11.wf_apply (C11.wf_init _ _) (.applyDigest _)
+
+example : c12State.nodes.find "p" = some { id := "p", addr := "ap" } ∧ "p" ≠ c12State.localId := by decide
+
+set_option maxRecDepth 100000 in
+example : c12Det.windows.find "p" = some (windowOf 200000000 50 c12Arrivals) ∧
+    c12Arrivals.Pairwise (· < ·) ∧ c12Arrivals.getLast? = some 6000000000 ∧
+    (lastN 50 (intervalsOf 200000000 c12Arrivals)).sum = 50 * 100000000 ∧
+    ((2000000001 : Nat) : Int) =
+      20 * (lastN 50 (intervalsOf 200000000 c12Arrivals)).sum / ((min c12Arrivals.length 50 : Nat) : Int) + 1 := by
+  decide +kernel
+
+/-- … so the theorem applies at 8 s + 1 ns (all hypotheses discharged by evaluation) … -/
+example : ∃ n', (livenessTick c12Det (Facts.suspicionThreshold.getD 0) 8000000001 c12State).1.nodes.find "p" = some n' ∧
+    n'.unreachable = true ∧ n'.expiry = some (8000000001 + nodeExpiry) ∧
+    Event.unreachable "p" ∈ (livenessTick c12Det (Facts.suspicionThreshold.getD 0) 8000000001 c12State).2 ∧
+    (∀ m ∈ liveNodes (livenessTick c12Det (Facts.suspicionThreshold.getD 0) 8000000001 c12State).1, m.id ≠ "p") ∧
+    n' ∈ unreachableNodes (livenessTick c12Det (Facts.suspicionThreshold.getD 0) 8000000001 c12State).1 :=
+  C12_silent_peer_marked_unreachable_threshold c12State (C11.wf_apply (C11.wf_init _ _) (.applyDigest _)) "p"
+    { id := "p", addr := "ap" } (by decide) (by decide) rfl rfl c12Det 200000000 50 c12Arrivals (by decide)
+    (by decide) (by decide +kernel) (by decide) (by decide +kernel) 2000000001 (by decide +kernel) 8000000001
+    (by decide +kernel)
+
+/-- … and `C12_steady_peer_stays_live_threshold` applies at 8 s (every sample is 100 ms, the silence is
+2 s = 20 × 100 ms) -/
+example : (livenessTick c12Det (Facts.suspicionThreshold.getD 0) 8000000000 c12State).1.nodes.find "p" =
+      some { id := "p", addr := "ap" } ∧
+    Event.unreachable "p" ∉ (livenessTick c12Det (Facts.suspicionThreshold.getD 0) 8000000000 c12State).2 ∧
+    ({ id := "p", addr := "ap" } : NodeSt) ∈
+      liveNodes (livenessTick c12Det (Facts.suspicionThreshold.getD 0) 8000000000 c12State).1 :=
+  C12_steady_peer_stays_live_threshold c12State (C11.wf_apply (C11.wf_init _ _) (.applyDigest _)) "p"
+    { id := "p", addr := "ap" } (by decide) (by decide) rfl rfl c12Det 200000000 50 c12Arrivals (by decide)
+    (by decide) (by decide +kernel) 100000000 (by decide) (by decide +kernel) 8000000000 (by decide +kernel)
+
+set_option maxRecDepth 100000 in
+/-- the level is exactly 20 at 8 s (not `> 20`: not flagged) and exceeds it one nanosecond later -/
+example : suspectedBy c12Det (Facts.suspicionThreshold.getD 0) 8000000000 "p" = false ∧
+    suspectedBy c12Det (Facts.suspicionThreshold.getD 0) 8000000001 "p" = true ∧
+    suspectedBy c12Det (Facts.suspicionThreshold.getD 0) 8000000001 "q" = false := by decide
+
+set_option maxRecDepth 100000 in
+/-- the tick at 8 s changes nothing and notifies nothing … -/
+example : (livenessTick c12Det (Facts.suspicionThreshold.getD 0) 8000000000 c12State).2 = [] ∧
+    (liveNodes (livenessTick c12Det (Facts.suspicionThreshold.getD 0) 8000000000 c12State).1).map (·.id) =
+      ["q", "p"] := by decide
+
+set_option maxRecDepth 100000 in
+/-- … the tick one nanosecond later flags `p` (expiry 60 s later), notifies `OnUnreachable(p)`, and
+routes gossip rounds to `q` (live draw) and `p` (unreachable draw); `q` is not flagged -/
+example :
+    let r := livenessTick c12Det (Facts.suspicionThreshold.getD 0) 8000000001 c12State
+    (r.1.nodes.find "p").map (fun n => (n.unreachable, n.expiry)) = some (true, some 68000000001) ∧
+    r.2 = [.unreachable "p"] ∧ (liveNodes r.1).map (·.id) = ["q"] ∧
+    (unreachableNodes r.1).map (·.id) = ["p"] ∧ (roundTargets r.1 7 3).map (·.id) = ["q", "p"] := by
+  decide
+
+set_option maxRecDepth 100000 in
+/-- heard again at 9 s: the tick at 9.5 s clears the flag and the expiry and notifies `OnReachable(p)` -/
+example :
+    let s₁ := (livenessTick c12Det (Facts.suspicionThreshold.getD 0) 8000000001 c12State).1
+    let r := livenessTick (c12Det.reportWithTimestamp "p" 9000000000).1 (Facts.suspicionThreshold.getD 0)
+      9500000000 s₁
+    (r.1.nodes.find "p").map (fun n => (n.unreachable, n.expiry)) = some (false, none) ∧
+    r.2 = [.reachable "p"] := by
+  decide
+
+set_option maxRecDepth 100000 in
+/-- the literal loop on the same data: same state and notifications, and the detector has stored
+`q`'s bootstrap window (arrival = the tick time, one sample of 200 ms) -/
+example :
+    (livenessTickD c12Det 20 8000000001 c12State).2.1.nodes = (livenessTick c12Det 20 8000000001 c12State).1.nodes ∧
+    (livenessTickD c12Det 20 8000000001 c12State).2.2 = (livenessTick c12Det 20 8000000001 c12State).2 ∧
+    (livenessTickD c12Det 20 8000000001 c12State).1.windows.find "q" =
+      some (windowOf 200000000 50 [8000000001]) ∧
+    c12Det.windows.find "q" = none := by
+  decide
+
+end Liveness
 
 end Piko
